@@ -182,16 +182,16 @@ theorem runO_eq_run (bs : Bytes) (fin : EndState) (script : Script) (orc : List 
     followed by garbage and the stream is closed (the read ends with an error). -/
 theorem chunk_crlf_counterexample :
     (Conn.runO b!"POST /a HTTP/1.1\r\nTransfer-Encoding: chunked\r\n\r\n3\r\nabc" .open
-        (List.replicate 200 1) (fun _ => ⟨1, 10, 10, .drop⟩)).delivered.map (·.bodyRead) = [b!"ab"] ∧
+        (List.replicate 200 1) (fun _ => ⟨1, 10, 10, .drop, false⟩)).delivered.map (·.bodyRead) = [b!"ab"] ∧
     (Conn.runO b!"POST /a HTTP/1.1\r\nTransfer-Encoding: chunked\r\n\r\n3\r\nabc" .open
-        [] (fun _ => ⟨1, 10, 10, .drop⟩)).delivered.map (·.bodyRead) = [[]] ∧
+        [] (fun _ => ⟨1, 10, 10, .drop, false⟩)).delivered.map (·.bodyRead) = [[]] ∧
     (Conn.run b!"POST /a HTTP/1.1\r\nTransfer-Encoding: chunked\r\n\r\n3\r\nabc" .open
-        (fun _ => ⟨1, 10, 10, .drop⟩)).delivered.map (·.bodyRead) = [[]] ∧
+        (fun _ => ⟨1, 10, 10, .drop, false⟩)).delivered.map (·.bodyRead) = [[]] ∧
     (Conn.runO b!"POST /a HTTP/1.1\r\nTransfer-Encoding: chunked\r\n\r\n3\r\nabcXX" .eof
-        (List.replicate 200 1) (fun _ => ⟨1, 10, 10, .drop⟩)).delivered.map (fun d => (d.bodyRead, d.readEnd))
+        (List.replicate 200 1) (fun _ => ⟨1, 10, 10, .drop, false⟩)).delivered.map (fun d => (d.bodyRead, d.readEnd))
       = [(b!"ab", .err)] ∧
     (Conn.run b!"POST /a HTTP/1.1\r\nTransfer-Encoding: chunked\r\n\r\n3\r\nabcXX" .eof
-        (fun _ => ⟨1, 10, 10, .drop⟩)).delivered.map (fun d => (d.bodyRead, d.readEnd)) = [([], .err)] := by
+        (fun _ => ⟨1, 10, 10, .drop, false⟩)).delivered.map (fun d => (d.bodyRead, d.readEnd)) = [([], .err)] := by
   decide
 
 theorem runO_eq_run_is_false :
@@ -200,7 +200,7 @@ theorem runO_eq_run_is_false :
   intro h
   have h' := congrArg (fun t => t.delivered.map (·.bodyRead))
     (h b!"POST /a HTTP/1.1\r\nTransfer-Encoding: chunked\r\n\r\n3\r\nabc" .open
-      (fun _ => ⟨1, 10, 10, .drop⟩) (List.replicate 200 1))
+      (fun _ => ⟨1, 10, 10, .drop, false⟩) (List.replicate 200 1))
   simp only at h'
   rw [chunk_crlf_counterexample.1, chunk_crlf_counterexample.2.2.1] at h'
   exact absurd h' (by decide)
@@ -211,7 +211,7 @@ theorem segmentation_independent_is_false :
   intro h
   have h' := congrArg (fun t => t.delivered.map (·.bodyRead))
     (h b!"POST /a HTTP/1.1\r\nTransfer-Encoding: chunked\r\n\r\n3\r\nabc" .open
-      (fun _ => ⟨1, 10, 10, .drop⟩) (List.replicate 200 1) [])
+      (fun _ => ⟨1, 10, 10, .drop, false⟩) (List.replicate 200 1) [])
   simp only at h'
   rw [chunk_crlf_counterexample.1, chunk_crlf_counterexample.2.1] at h'
   exact absurd h' (by decide)
@@ -253,12 +253,12 @@ theorem segmentation_independent_partial (bs : Bytes) (fin : EndState) (script :
 
 /-- non-vacuity: one-byte-at-a-time delivery of a chunked request followed by another. -/
 example : (Conn.runO b!"POST /a HTTP/1.1\r\nTransfer-Encoding: chunked\r\n\r\n3\r\nabc\r\n0\r\n\r\nGET /b HTTP/1.1\r\n\r\n" .eof
-      (List.replicate 200 1) (fun _ => ⟨1, 10, 2, .drop⟩)).statuses = [500, 500] ∧
+      (List.replicate 200 1) (fun _ => ⟨1, 10, 2, .drop, false⟩)).statuses = [500, 500] ∧
     (Conn.runO b!"POST /a HTTP/1.1\r\nTransfer-Encoding: chunked\r\n\r\n3\r\nabc\r\n0\r\n\r\nGET /b HTTP/1.1\r\n\r\n" .eof
-      (List.replicate 200 1) (fun _ => ⟨1, 10, 2, .drop⟩)).delivered.map (·.bodyRead) = [b!"abc", []] := by decide
+      (List.replicate 200 1) (fun _ => ⟨1, 10, 2, .drop, false⟩)).delivered.map (·.bodyRead) = [b!"abc", []] := by decide
 
 /-- non-vacuity of `runO_eq_run_partial`: its hypothesis holds for that stream. -/
 example : ∀ d ∈ (Conn.run b!"POST /a HTTP/1.1\r\nTransfer-Encoding: chunked\r\n\r\n3\r\nabc\r\n0\r\n\r\nGET /b HTTP/1.1\r\n\r\n" .eof
-      (fun _ => ⟨1, 10, 2, .drop⟩)).delivered, d.lossy = false := by decide
+      (fun _ => ⟨1, 10, 2, .drop, false⟩)).delivered, d.lossy = false := by decide
 
 end TH.Props.C13
